@@ -520,10 +520,16 @@ def run_check(main):
         # states one.  Reported as a violation (the replay re-runs the check);
         # anything raised by the harness itself is a machinery failure.
         frames = traceback.extract_tb(sys.exc_info()[2])
-        inner = frames[-1] if frames else None
         repo_real = os.path.realpath(REPO) + os.sep
-        if CURRENT[0] is not None and inner is not None and \
-                os.path.realpath(inner.filename).startswith(repo_real):
+        verif_real = os.path.realpath(VERIF) + os.sep
+        # innermost library frame entered after the last harness frame (the
+        # exception may surface in numpy / scipy called by the library)
+        last_h = max([i for i, f in enumerate(frames) if os.path.realpath(
+            f.filename).startswith(verif_real)] or [-1])
+        lib = [f for f in frames[last_h + 1:] if os.path.realpath(
+            f.filename).startswith(repo_real)]
+        inner = lib[-1] if lib else None
+        if CURRENT[0] is not None and inner is not None:
             ck = CURRENT[0]
             rel = os.path.realpath(inner.filename)[len(repo_real):]
             ck.violation("library-exception",
